@@ -37,7 +37,18 @@ pub fn lib_parse(ctx: &mut Ctx, bytes: &[u8]) -> Option<(Vec<Entry>, usize)> {
         let tail_ok = s.as_ptr() == bytes[consumed..].as_ptr();
         (got, consumed, tail_ok)
     }) {
-        Ok((g, c, true)) => Some((g, c)),
+        Ok((g, c, true)) => {
+            if bytes.len() < 600 {
+                let m = Misaligned::new(bytes);
+                let mut s = m.slice();
+                let g2 = conv(&chronobox_fifo(&mut s));
+                if g2 != g || m.slice().len() - s.len() != c {
+                    ctx.violation("parsing depends on the alignment of the input slice", String::new(), json!({"bytes": hex(bytes)}));
+                    return None;
+                }
+            }
+            Some((g, c))
+        }
         Ok((_, _, false)) => {
             ctx.violation("remainder is not the unconsumed tail of the input", String::new(), json!({"bytes": hex(bytes)}));
             None
